@@ -124,11 +124,46 @@ func (f *g2lFn) call(b *binds, e *ast.CallExpr) string {
 		return "(" + p + " " + strings.Join(args, " ") + ")"
 	}
 	if s, ok := f.u.stdCalls[strings.Join(strings.Fields(show(e.Fun)), "")]; ok {
-		t := "(" + s.lean + " " + strings.Join(f.args(b, e), " ") + ")"
+		args := f.args(b, e)
+		if sel, ok := e.Fun.(*ast.SelectorExpr); ok {
+			isPkg := false
+			root := sel.X
+			for {
+				if s2, ok := root.(*ast.SelectorExpr); ok {
+					root = s2.X
+					continue
+				}
+				break
+			}
+			if id, ok := root.(*ast.Ident); ok {
+				_, isPkg = f.p.info.Uses[id].(*types.PkgName)
+			}
+			if !isPkg {
+				// a method of a foreign type (os.FileMode.IsRegular): the receiver is the first argument
+				args = append([]string{f.expr(b, sel.X)}, args...)
+			}
+		}
+		t := "(" + s.lean + " " + strings.Join(args, " ") + ")"
 		if s.fx {
 			return f.bindM(b, t)
 		}
 		return t
+	}
+	if id, ok := e.Fun.(*ast.Ident); ok {
+		if cl, ok := f.closures[f.p.info.Uses[id]]; ok {
+			args := f.args(b, e)
+			all := append(append(append([]string{}, cl.captured...), args...), cl.modified...)
+			t := f.bindM(b, "("+cl.lean+" \x00ABS\x00fuel "+strings.Join(all, " ")+")")
+			if len(cl.modified) == 0 {
+				return t
+			}
+			r := f.fresh("cr")
+			b.add(fmt.Sprintf("let (%s, %s) := %s", r, tuple(cl.modified), t))
+			for _, m := range cl.modified {
+				b.noteRebound(m)
+			}
+			return r
+		}
 	}
 	pkg, name, obj := f.calleeName(e)
 	if p, ok := f.u.absFuncs[pkg+"."+name]; ok && pkg != "" {
@@ -369,6 +404,12 @@ func (f *g2lFn) varName(o types.Object) string {
 }
 
 func (f *g2lFn) retTerm(vals string) []string {
+	if f.inClosure {
+		if len(f.closOuts) > 0 {
+			vals = "(" + vals + ", " + tuple(f.closOuts) + ")"
+		}
+		return f.retRaw(vals)
+	}
 	if f.inoutName != "" {
 		vals = "(" + vals + ", " + f.inoutName + ")"
 	}
@@ -723,6 +764,17 @@ func (f *g2lFn) assignedOuter(nodes []ast.Node, before token.Pos) []*types.Var {
 			case *ast.IncDecStmt:
 				add(n.X)
 			case *ast.CallExpr:
+				// a call to a local closure assigns to the captured variables it modifies
+				if id, ok := n.Fun.(*ast.Ident); ok {
+					if cl, ok := f.closures[f.p.info.Uses[id]]; ok {
+						for _, v := range cl.modV {
+							if v.Pos() < before && !seen[v] {
+								seen[v] = true
+								out = append(out, v)
+							}
+						}
+					}
+				}
 				if sel, ok := n.Fun.(*ast.SelectorExpr); ok {
 					if id, ok := sel.X.(*ast.Ident); ok {
 						if tv, ok := f.p.info.Types[id]; ok && tv.Type != nil && isBytesBuffer(tv.Type) && strings.HasPrefix(sel.Sel.Name, "Write") {
@@ -969,6 +1021,12 @@ func (f *g2lFn) simple(s ast.Stmt) []string {
 	lines := []string{}
 	switch s := s.(type) {
 	case *ast.AssignStmt:
+		if s.Tok == token.DEFINE && len(s.Lhs) == 1 && len(s.Rhs) == 1 {
+			if lit, ok := s.Rhs[0].(*ast.FuncLit); ok {
+				f.defineClosure(s.Lhs[0].(*ast.Ident), lit)
+				return lines
+			}
+		}
 		if s.Tok != token.ASSIGN && s.Tok != token.DEFINE {
 			// compound assignment x op= y
 			op := map[token.Token]token.Token{token.ADD_ASSIGN: token.ADD, token.SUB_ASSIGN: token.SUB, token.MUL_ASSIGN: token.MUL,
@@ -1182,6 +1240,9 @@ func (f *g2lFn) exprStmtCall(c *ast.CallExpr) ([]string, bool) {
 		}
 		return nil, false
 	}
+	if sel, ok := c.Fun.(*ast.SelectorExpr); ok && f.u.ignoreCalls[sel.Sel.Name] {
+		return []string{}, true
+	}
 	if sel, ok := c.Fun.(*ast.SelectorExpr); ok {
 		if id, ok := sel.X.(*ast.Ident); ok && isBytesBuffer(f.typeOf(id)) && len(c.Args) == 1 {
 			x := f.expr(&b, c.Args[0])
@@ -1244,4 +1305,71 @@ func (f *g2lFn) isPanicCall(c *ast.CallExpr) bool {
 	}
 	n, ok := rt.(*types.Named)
 	return ok && f.u.panicCalls[n.Obj().Name()+"."+sel.Sel.Name]
+}
+
+func (f *g2lFn) defineClosure(name *ast.Ident, lit *ast.FuncLit) {
+	if f.closures == nil {
+		f.closures = map[types.Object]*g2lClosure{}
+	}
+	f.fuel, f.pure = true, false
+	sig := f.p.info.Types[lit].Type.(*types.Signature)
+	modifiedV := f.assignedOuter([]ast.Node{lit.Body}, lit.Pos())
+	ex := map[*types.Var]bool{}
+	for _, v := range modifiedV {
+		ex[v] = true
+	}
+	capturedV := f.usedOuter([]ast.Node{lit.Body}, lit.Pos(), ex)
+	cl := &g2lClosure{lean: f.leanName + "_" + leanIdent(name.Name), modV: modifiedV, capV: capturedV}
+	params := []string{}
+	for _, v := range capturedV {
+		cl.captured = append(cl.captured, f.varName(v))
+		params = append(params, fmt.Sprintf("(%s : %s)", f.varName(v), f.leanType(v.Type(), lit)))
+	}
+	for i := 0; i < sig.Params().Len(); i++ {
+		v := sig.Params().At(i)
+		params = append(params, fmt.Sprintf("(%s : %s)", f.varName(v), f.leanType(v.Type(), lit)))
+	}
+	outTypes := []string{}
+	for _, v := range modifiedV {
+		cl.modified = append(cl.modified, f.varName(v))
+		params = append(params, fmt.Sprintf("(%s : %s)", f.varName(v), f.leanType(v.Type(), lit)))
+		outTypes = append(outTypes, f.leanType(v.Type(), lit))
+	}
+	// compile the body in a fresh control context
+	sResults, sNamed, sRet, sLoop, sBrk, sDefer := f.results, f.named, f.retType, f.inLoop, f.brk, f.deferBody
+	sEff, sInout, sOuts, sIn, sEnd := f.effType, f.inoutName, f.closOuts, f.inClosure, f.endK
+	f.results, f.named = nil, false
+	rts := []string{}
+	for i := 0; i < sig.Results().Len(); i++ {
+		f.results = append(f.results, sig.Results().At(i))
+		rts = append(rts, f.leanType(sig.Results().At(i).Type(), lit))
+	}
+	ret := "Unit"
+	if len(rts) == 1 {
+		ret = rts[0]
+	} else if len(rts) > 1 {
+		ret = "(" + strings.Join(rts, " × ") + ")"
+	}
+	full := ret
+	if len(outTypes) > 0 {
+		full = "(" + ret + " × " + strings.Join(outTypes, " × ") + ")"
+	}
+	f.retType, f.inLoop, f.brk, f.deferBody, f.effType, f.inoutName = full, nil, nil, nil, "", ""
+	f.closOuts, f.inClosure = cl.modified, true
+	end := func() []string {
+		if len(f.results) == 0 {
+			return f.retTerm("()")
+		}
+		f.bad(lit, "control reaches the end of a closure with results")
+		return nil
+	}
+	f.endK = end
+	body := f.stmts(lit.Body.List, end)
+	f.results, f.named, f.retType, f.inLoop, f.brk, f.deferBody = sResults, sNamed, sRet, sLoop, sBrk, sDefer
+	f.effType, f.inoutName, f.closOuts, f.inClosure, f.endK = sEff, sInout, sOuts, sIn, sEnd
+	def := &strings.Builder{}
+	fmt.Fprintf(def, "/-- closure `%s` of `%s` (%s) -/\n", name.Name, f.goName, shortPos(f.pos(lit)))
+	fmt.Fprintf(def, "def %s \x00ABSP\x00(fuel : Nat) %s : M %s := do\n%s\n", cl.lean, strings.Join(params, " "), full, indent(strings.Join(body, "\n"), 2))
+	f.loops = append(f.loops, def.String())
+	f.closures[f.p.info.Defs[name]] = cl
 }
